@@ -440,13 +440,13 @@ impl StreamSocket {
                 }
                 Err(Closed(())) => {
                     // The read half was dropped while the write half is still
-                    // open. A FIN carries no data, so nothing is lost by not
-                    // reading it: do not reset the outbound direction.
-                    if let Some(SequencedSegment::Fin) = self.buf.get(&self.recv_seq) {
-                        self.buf.swap_remove(&self.recv_seq);
-                        return Ok(());
-                    }
-                    return Err(Protocol::Tcp(Segment::Rst));
+                    // open (the socket is still in the table). Nobody will
+                    // read inbound segments any more, but that is no reason
+                    // to reset the outbound direction: discard them. A
+                    // discarded Data segment keeps its flow-control credit,
+                    // so a peer that keeps writing ends up blocked, as it
+                    // would against a receiver that stopped reading.
+                    self.buf.swap_remove(&self.recv_seq);
                 }
                 Err(Full(())) => {
                     self.recv_seq -= 1;
